@@ -48,6 +48,14 @@ func c04Run(c *mon.Ctx, unit int) {
 		}
 		s := ec.S
 		s.OptKeys = r.Chance(1, 6)
+		inType := k%5 == 4
+		if inType {
+			// the generated tree becomes an ADDED TYPE referenced by a small root: the checker must
+			// visit the nodes of added types as thoroughly as those of the root
+			s = &model.Schema{Root: model.Obj(model.P("x", model.Ref("@gen")), model.P("n", model.Int("1"))),
+				Types: append(append([]*model.TypeDef{}, s.Types...), &model.TypeDef{Name: "@gen", Root: s.Root}), Enums: s.Enums, OptKeys: s.OptKeys}
+			ec = &gen.EveryCase{S: s, Scalars: ec.Scalars}
+		}
 		sp := specOf(s, model.Style{})
 		built := buildSchema(sp)
 		if built.check.Panic != "" {
@@ -62,6 +70,11 @@ func c04Run(c *mon.Ctx, unit int) {
 		}
 		key, _ := json.Marshal(sp)
 		c.Distinct(string(key))
+		if inType {
+			c.Count("schemas whose generated tree is an added type", 1)
+			c04Plant(c, r, ec)
+			continue
+		}
 		// ---- forward: Validate(example) on the same schema object and on a fresh one
 		ex := gen.ExampleVal(s.Root)
 		doc := ex.Text()
@@ -91,6 +104,10 @@ func c04Plant(c *mon.Ctx, r *mon.Rng, ec *gen.EveryCase) {
 	// candidates: scalar nodes with rules + arrays (item counts) + scalars for declared type
 	var nodes []*model.Node
 	s.Root.Walk(func(n *model.Node) { nodes = append(nodes, n) })
+	if t := s.Type("@gen"); t != nil {
+		nodes = nil
+		t.Root.Walk(func(n *model.Node) { nodes = append(nodes, n) })
+	}
 	mon.Shuffle(r, nodes)
 	tried := 0
 	for _, n := range nodes {
@@ -102,6 +119,10 @@ func c04Plant(c *mon.Ctx, r *mon.Rng, ec *gen.EveryCase) {
 		var orig, cl []*model.Node
 		s.Root.Walk(func(x *model.Node) { orig = append(orig, x) })
 		clone.Root.Walk(func(x *model.Node) { cl = append(cl, x) })
+		if t := s.Type("@gen"); t != nil {
+			t.Root.Walk(func(x *model.Node) { orig = append(orig, x) })
+			clone.Type("@gen").Root.Walk(func(x *model.Node) { cl = append(cl, x) })
+		}
 		var target *model.Node
 		for i := range orig {
 			if orig[i] == n {
@@ -149,24 +170,36 @@ func c04Plant(c *mon.Ctx, r *mon.Rng, ec *gen.EveryCase) {
 			// a probe of the same JSON kind that the node's own rules reject
 			o := &model.Oracle{S: s}
 			var bad *model.Val
+			// const: true compares the value with the example itself, so it is left out of the
+			// oracle query: the planted value must violate one of the OTHER rules
+			probeNode := &model.Node{Kind: n.Kind, Lit: n.Lit}
+			for _, rr := range n.Rules {
+				if rr.Name != "const" {
+					probeNode.Rules = append(probeNode.Rules, rr)
+				}
+			}
 			for _, p := range ec.Scalars[n].Probes {
 				if !sameLitKind(n, p) {
 					continue
 				}
-				if o.AcceptsNode(n, p) == model.Reject {
+				if o.AcceptsNode(probeNode, p) == model.Reject {
 					bad = p
 					if r.Chance(1, 3) {
 						break
 					}
 				}
 			}
-			if bad == nil || n.BoolRule("const") {
+			if bad == nil {
 				continue
 			}
+			n = probeNode
 			target.Lit = bad.Text()
 			class = "example value violates its own rule (" + o.Why + ")"
 			_ = o.AcceptsNode(n, bad)
 			class = "example value violates its own rule: " + o.Why
+			if target.BoolRule("const") {
+				class += " (node also has const: true)"
+			}
 		case n.IsScalar() && (n.Rule("or") != nil || n.Rule("enum") != nil || (n.Rule("type") != nil && len(n.Rule("type").Str) > 0 && n.Rule("type").Str[0] == '@')):
 			// or / enum-by-name / {type: "@T"} on a literal: a literal no alternative accepts
 			o := &model.Oracle{S: s}
